@@ -84,12 +84,17 @@ theorem scalar_prop_propagates (c : Cfg) (props : List PropDef) (p : PropDef) (k
     (hnn : t ≠ .null) (h : IsErr (decodeScalar c.O k tok)) : IsErr (decProp c props p t st) := by
   obtain ⟨e, he⟩ := h
   unfold decProp; rw [hf]; simp only []
-  unfold decScalarProp
-  cases t <;> simp only [goTok] at hg <;> try (cases hg)
+  unfold decScalarProp createField
+  cases t <;> simp only [goTok, Option.some.injEq] at hg <;> try (cases hg)
   all_goals first
     | exact absurd rfl hnn
-    | (cases hc : createField p st <;> simp [Outcome.bind, he, IsErr]
-       split <;> simp)
+    | (simp only [goTok]
+       split
+       · exact ⟨_, rfl⟩
+       · simp only [Outcome.bind]
+         split
+         · exact ⟨_, rfl⟩
+         · simp [he, IsErr])
 
 /-- more than one key in a oneof -/
 theorem oneof_multiple_keys (ops : List PropDef) (a b : Bytes) (rest : List Bytes) (ct : Option Bytes) :
@@ -123,23 +128,19 @@ theorem decOneofMembers_found_grows (c : Cfg) (ops : List PropDef) :
     ∀ (ms : PMembers) (st : PS) (found : List Bytes) (ct : Option Bytes) (st' : PS) (found' : List Bytes)
       (ct' : Option Bytes) (term : Term),
       decOneofMembers c ops ms st found ct = .ok (st', found', ct', term) →
-      found.length ≤ found'.length := by
-  intro ms
-  induction ms with
-  | nil t =>
-    intro st found ct st' found' ct' term h
+      found.length ≤ found'.length
+  | .nil t, st, found, ct, st', found', ct', term, h => by
     simp only [decOneofMembers] at h; cases h; exact Nat.le_refl _
-  | cons k kr v rest ihv ih =>
-    intro st found ct st' found' ct' term h
+  | .cons k kr v rest, st, found, ct, st', found', ct', term, h => by
     unfold decOneofMembers at h
     split at h
     · split at h
-      · exact ih _ _ _ _ _ _ _ h
+      · exact decOneofMembers_found_grows c ops rest _ _ _ _ _ _ _ h
       · cases h
     · split at h
       · cases h
       · split at h
-        · have := ih _ _ _ _ _ _ _ h
+        · have := decOneofMembers_found_grows c ops rest _ _ _ _ _ _ _ h
           simp at this; omega
         · cases h
         · cases h
